@@ -473,8 +473,9 @@ def lcp_hardening(ctx, cases, outs, thorough):
             ctx.fail(kind, what + " (%s)" % label, dict(case_input(cases[i]), dress=label), out, None)
 
     pool_d = [i for i in pool if cases[i]["d"] is not None]
+    frac_pool = [i for i in pool if outs[i][1] and any(v != int(v) for v in outs[i][0])] or pool   # non-integer z
     for kind in ARRAY_DRESS:
-        for i in rng.sample(pool, per):
+        for i in rng.sample(frac_pool, min(per, len(frac_pool))) + rng.sample(pool, per):
             a = lcp_arrays(cases[i])
             # M and q together (d: float64 ndarray or None, the only forms the jitted signature unifies with np.ones(n))
             expect_same(i, call(i, {"M": dress_array(a["M"], kind), "q": dress_array(a["q"], kind)}, "dress:M,q:" + kind), "M, q " + kind)
